@@ -6,18 +6,23 @@ def outs(g, i):
     return sorted(b for a, b in g["edges"] if a == i)
 
 
-def realise_fb(g, ref="N%d"):
-    """ref: how a reference to node j is spelled (names are case-insensitive: 'n3' is N3)"""
+def realise_fb(g, ref="N%d", arrays=False):
+    """ref: how a reference to node j is spelled (names are case-insensitive: 'n3' is N3)
+    arrays: every second edge is an ARRAY of instances (a block that contains an array of instances of itself contains
+    instances of itself)"""
     t = ""
     for i in range(1, g["n"] + 1):
         t += "FUNCTION_BLOCK N%d\n  VAR\n" % i
-        for j in outs(g, i):
+        for k, j in enumerate(outs(g, i)):
+            if arrays and (i + k) % 2 == 0:
+                t += "    e%d : ARRAY [1..2] OF %s;\n" % (j, ref % j)
+                continue
             t += "    e%d : %s;\n" % (j, ref % j)
         t += "    x : INT;\n  END_VAR\n  x := 1;\nEND_FUNCTION_BLOCK\n"
     return t
 
 
-def realise_struct(g, alias=False, ref="N%d", aliases_twice=False):
+def realise_struct(g, alias=False, ref="N%d", aliases_twice=False, arrays=False):
     t = ""
     for i in range(1, g["n"] + 1):
         o = outs(g, i)
@@ -25,7 +30,10 @@ def realise_struct(g, alias=False, ref="N%d", aliases_twice=False):
             t += ("TYPE\n  N%d : %s;\nEND_TYPE\n" % (i, ref % o[0])) * (2 if aliases_twice else 1)
             continue
         t += "TYPE\n  N%d : STRUCT\n" % i
-        for j in o:
+        for k, j in enumerate(o):
+            if arrays and (i + k) % 2 == 0:
+                t += "    f%d : ARRAY [0..1] OF %s;\n" % (j, ref % j)
+                continue
             t += "    f%d : %s;\n" % (j, ref % j)
         t += "    v : INT;\n  END_STRUCT;\nEND_TYPE\n"
     return t
